@@ -263,7 +263,8 @@ def _main(args):
     if not args.no_evidence:
         os.makedirs(os.path.join(VERIF, "evidence"), exist_ok=True)
         with open(os.path.join(VERIF, "evidence", f"{prop}.json"), "w") as f:
-            json.dump(ev, f, indent=1, sort_keys=True, default=repr)
+            # strict JSON: non-finite floats (inf / nan magnitudes in samples) as strings
+            json.dump(_strict(ev), f, indent=1, sort_keys=True, default=repr, allow_nan=False)
             f.write("\n")
     say(f"done: runs={total.runs} steps={total.steps} distinct_nontrivial="
         f"{len(total.nontrivial_signatures)} transitions={len(total.transitions)} "
@@ -271,6 +272,16 @@ def _main(args):
     for line in viol_lines:
         say(line)
     return exit_code
+
+
+def _strict(x):
+    if isinstance(x, float) and (x != x or x in (float("inf"), float("-inf"))):
+        return repr(x)
+    if isinstance(x, dict):
+        return {str(k): _strict(v) for k, v in x.items()}
+    if isinstance(x, (list, tuple)):
+        return [_strict(v) for v in x]
+    return x
 
 
 def do_replay(core, mcls, prop, path, verbose):
